@@ -6,4 +6,5 @@ CONSTANTS
   KeepInt = 1000000
   KeepFloat = 1000000
   KeepRatio = 1000000
+  WithStrings = FALSE
 CHECK_DEADLOCK FALSE
